@@ -93,6 +93,26 @@ def families(tier, rng):
     return fam
 
 
+def bystander_sessions():
+    """ABOR (or the end of the session) from a session that has no transfer while *another* session's transfer is waiting for its
+    data connection, moving data or held in a backend call: the sender gets its single 226, the other transfer is not touched."""
+    out = []
+    login = [["connect", 1], ["send", 1, "USER u2"], ["connect", 2], ["send", 2, "USER u1"], ["send", 2, "PASS pw1"]]
+    xs = {"retr": (["send", 2, "RETR f"], None), "stor": (["send", 2, "STOR n1"], [1, 2, 3]), "list": (["send", 2, "LIST"], None), "appe": (["send", 2, "APPE f"], [9])}
+    for name, (cmd, data) in xs.items():
+        for what in (["send", 1, "ABOR"], ["send", 1, "QUIT"], ["vanish", 1]):
+            rest = ([["dsend", 2, data]] if data else []) + [["deof", 2], ["send", 2, "PWD"], ["send", 2, "MLST f"]]
+            after = [["send", 1, "PWD"]] if what[1:] == [1, "ABOR"] else []
+            # waiting for the data connection
+            out.append(login + [["send", 2, "PASV"], cmd, what] + after + [["dconnect", 2]] + rest)
+            # connected, nothing moved yet / held in its first backend calls
+            out.append(login + [["send", 2, "PASV"], ["dconnect", 2], ["hold", 2, 4], cmd, what] + after + rest)
+            for j in (1, 2, 3):
+                out.append(login + [["send", 2, "EPSV"], ["dconnect", 2], ["gate", 2, None, j], cmd] + ([["dsend", 2, data]] if data else [])
+                           + [what] + after + [["release", 2], ["deof", 2], ["send", 2, "PWD"], ["send", 2, "MLST f"]])
+    return out
+
+
 def run(tier, seed):
     chk = report.Check("C14", tier, seed)
     mc.into(chk, mc.run_config("MC_Fault_q" if tier == "quick" else "MC_Fault_t", "MC_Seq", must_cover=("ReplyEv", "WorkerStep")))
@@ -111,6 +131,9 @@ def run(tier, seed):
         races = [s for f, s in fam if f.startswith(("race-start", "race-end"))]
         cfg = gen.std_cfg(ns=1, backend="async", block=2)
         corecheck.validate(chk, cfg, gen.STD_TREE, races, label="abor:async:b2")
+    by = bystander_sessions()
+    for b in ("memory", "async"):
+        corecheck.validate(chk, gen.std_cfg(ns=2, backend=b, block=2), gen.STD_TREE, by, label="bystander:" + b)
     chk.cov["rule"] = ("RETR/STOR/APPE/LIST/MLSD x sizes x data connection before/after the command x ABOR at every step "
                        "position and while the j-th backend call is in flight, followed by further commands and a second "
                        "transfer; non-trivial = an ABOR actually interrupted a transfer (426 observed)")
